@@ -46,6 +46,12 @@ impl H for [i32] { fn h(&self) -> i32 { self.iter().fold(self.len() as i32, |a, 
 impl<T: H + ?Sized> H for &T { fn h(&self) -> i32 { (**self).h() } }
 impl<A: H, B: H> H for (A, B) { fn h(&self) -> i32 { self.0.h().wrapping_mul(11).wrapping_add(self.1.h()) } }
 
+/// counts how often the argument expressions of adapters / consumers (take, skip, nth counts, zip arguments) are
+/// evaluated: std evaluates each once when the chain is built, whatever the input
+thread_local! { static ARGC: std::cell::Cell<u32> = const { std::cell::Cell::new(0) }; }
+pub fn ac<T>(v: T) -> T { ARGC.with(|c| c.set(c.get() + 1)); v }
+pub fn argc() -> u32 { ARGC.with(|c| c.replace(0)) }
+
 /// function-path forms
 pub fn hv<T: H>(x: T) -> i32 { x.h().wrapping_mul(3) ^ 1 }
 pub fn hp<T: H>(x: &T) -> bool { x.h().rem_euclid(2) == 0 }
@@ -405,14 +411,14 @@ def render_chain(desc):
         elif m == "rev":
             kparts.append("rev()"); sparts.append(".rev()")
         elif m in ("skip", "take"):
-            kparts.append("%s(inp.n0)" % m); sparts.append(".%s(inp.n0)" % m); aparts.append(".%s(inp.n0)" % m)
+            kparts.append("%s(ac(inp.n0))" % m); sparts.append(".%s(ac(inp.n0))" % m); aparts.append(".%s(ac(inp.n0))" % m)
         elif m in ("skip_while", "take_while"):
             k, s = closure("pred", ty, ad.get("form", 0), True)
             kparts.append("%s(%s)" % (m, k)); sparts.append(".%s(%s)" % (m, s)); aparts.append(".%s(%s)" % (m, s))
         elif m == "zip":
             k, s, r, *_ = ZIP_ARGS[ad["arg"]]
-            kparts.append("zip(%s)" % k); sparts.append(".zip(%s)" % s)
-            aparts.append(".zip(%s)" % (r if before_r else s))
+            kparts.append("zip(ac(%s))" % k); sparts.append(".zip(ac(%s))" % s)
+            aparts.append(".zip(ac(%s))" % (r if before_r else s))
         ok = apply_adapter(st, ad)
         assert ok, (desc, ad)
     item_ty = st.ty
@@ -456,7 +462,7 @@ def render_fns(i, desc):
         if mname in ("position", "rposition"):
             return "format!(\"{:?}\", %s.%s(%s))" % (chain, mname, ps)
         if mname == "nth":
-            return "format!(\"{:?}\", %s.nth(inp.n1).map(|x| x.h()))" % chain
+            return "format!(\"{:?}\", %s.nth(ac(inp.n1)).map(|x| x.h()))" % chain
         if mname == "next":
             return "format!(\"{:?}\", %s.next().map(|x| x.h()))" % chain
         if mname in ("fold", "rfold"):
@@ -478,7 +484,7 @@ def render_fns(i, desc):
     elif cm == "find_map":
         kbody = "format!(\"{:?}\", iter::eval!(%s%s, find_map(%s)))" % (ksrc, kmethods, fmk)
     elif cm == "nth":
-        kbody = "format!(\"{:?}\", iter::eval!(%s%s, nth(inp.n1)).map(|x| x.h()))" % (ksrc, kmethods)
+        kbody = "format!(\"{:?}\", iter::eval!(%s%s, nth(ac(inp.n1))).map(|x| x.h()))" % (ksrc, kmethods)
     elif cm == "next":
         kbody = "format!(\"{:?}\", iter::eval!(%s%s, next()).map(|x| x.h()))" % (ksrc, kmethods)
     elif cm in ("fold", "rfold"):
@@ -486,14 +492,18 @@ def render_fns(i, desc):
     else:
         raise ValueError(cm)
     sbody = std_consume(schain, cm)
-    tbody = std_consume(schain.replace(".take(inp.n0)", ".take(inp.n0 + 1)"), cm) if flags["has_t"] else "String::new()"
+    tbody = std_consume(schain.replace(".take(ac(inp.n0))", ".take(ac(inp.n0) + 1)"), cm) if flags["has_t"] else "String::new()"
     fwd = {"rfind": "find", "rfold": "fold", "rposition": "position"}.get(cm, cm)
     abody = std_consume(achain, fwd) if achain else "String::new()"
+    def counted(body):
+        # the result string carries the number of argument-expression evaluations of this run
+        return "argc(); let r = { %s }; format!(\"{} #argument evaluations: {}\", r, argc())" % body
+
     src = []
-    src.append("fn k_%d(inp: &Inp) -> String { %s }" % (i, kbody))
-    src.append("fn s_%d(inp: &Inp) -> String { %s }" % (i, sbody))
-    src.append("fn a_%d(inp: &Inp) -> String { %s }" % (i, abody))
-    src.append("fn t_%d(inp: &Inp) -> String { %s }" % (i, tbody))
+    src.append("fn k_%d(inp: &Inp) -> String { %s }" % (i, counted(kbody)))
+    src.append("fn s_%d(inp: &Inp) -> String { %s }" % (i, counted(sbody)))
+    src.append("fn a_%d(inp: &Inp) -> String { %s }" % (i, counted(abody)))
+    src.append("fn t_%d(inp: &Inp) -> String { %s }" % (i, counted(tbody)))
     return "\n".join(src), flags
 
 
